@@ -1,20 +1,54 @@
 #!/usr/bin/env python3
-"""Rewrites the '<!-- SEEDS -->' block of DESIGN.md from seeded/*/meta.json."""
+"""Rewrites the '<!-- SEEDS -->' block of DESIGN.md from seeded/*/meta.json and harmless/*/meta.json.
+'first run' = what the check said when the case was first tried (tools/seedcheck.py / tools/harmcheck.py);
+'now' = what the current machinery says (tools/seedsweep.py, recorded as "final" in meta.json)."""
 import glob, json, os, re
+
+
+def word(v):
+    return 'input' if v.get('with_input') else ('no-input' if v.get('detected') else 'MISSED')
+
+
 rows = []
 for d in sorted(glob.glob('/verif/seeded/*')):
     m = json.load(open(d + '/meta.json'))
     det = m.get('confirmed', {}).get('detection', {})
-    for cid, v in det.items():
-        how = 'VIOLATION + failing input' if v['with_input'] else ('VIOLATION no-failing-input-found' if v['detected'] else 'NOT DETECTED')
-        via = (v['lines'][:1] or [''])[0].lstrip('# ')
-        via = 'broken proof/translator, then search' if via.startswith('proof obligation') else 'oracle / correspondence on the implementation'
-        rows.append('| %s | %s | %s | %s (%s) |' % (os.path.basename(d), m.get('summary', '').replace('|', '/')[:220], m.get('needs', '').replace('|', '/')[:200], how, via))
+    fin = m.get('final', {})
+    first = ', '.join('%s: %s' % (cid, word(v)) for cid, v in det.items())
+    if not fin:
+        now = '(not re-run)'
+    elif not fin.get('applies'):
+        now = 'patch no longer applies to HEAD'
+    else:
+        now = ', '.join('%s: %s' % (cid, word(v)) for cid, v in fin['checks'].items())
+    rows.append('| %s | %s | %s | %s | %s |' % (os.path.basename(d), m.get('summary', '').replace('|', '/').replace('\n', ' ')[:200],
+                                              m.get('needs', '').replace('|', '/').replace('\n', ' ')[:160], first, now))
+hrows = []
+for d in sorted(glob.glob('/verif/harmless/*')):
+    m = json.load(open(d + '/meta.json'))
+    chk = m.get('confirmed', {}).get('checks', {})
+    fin = m.get('final', {})
+    first = ', '.join('%s: %s' % (cid, 'quiet' if v.get('quiet') else 'ALARM') for cid, v in chk.items())
+    if not fin:
+        now = '(not re-run)'
+    elif not fin.get('applies'):
+        now = 'patch no longer applies to HEAD'
+    else:
+        now = ', '.join('%s: %s' % (cid, 'quiet' if v.get('quiet') else ('ALARM' + ('' if v.get('with_input') else ' (no-failing-input-found)'))) for cid, v in fin['checks'].items())
+    hrows.append('| %s | %s | %s | %s |' % (os.path.basename(d), m.get('summary', '').replace('|', '/').replace('\n', ' ')[:260], first, now))
 block = ('<!-- SEEDS -->\n### Seeded changes (independent sub-agents, property text only) and which check catches them\n\n'
          'Each change was produced by a fresh sub-agent that saw only the property text and its own scratch worktree, still passes the 444 '
          'stable tests, and comes with a demonstration that fails with the change and passes without it (`seeded/<id>-<k>/`). Confirmed and run '
-         'with `tools/seedcheck.py` (scratch worktree + `VERIF_REPO=<worktree> ./check <ID>`).\n\n'
-         '| seed | change | needs | caught by ./check <ID> |\n|---|---|---|---|\n' + '\n'.join(rows) + '\n<!-- /SEEDS -->')
+         'with `tools/seedcheck.py` (scratch worktree + `VERIF_REPO=<worktree> ./check <ID>`); `tools/seedsweep.py` re-runs all of them against '
+         'the current machinery. Rounds: k=1,2 obvious edits in the anchored code; k=3,4 less central paths; k=5,6 code OUTSIDE the anchored '
+         'functions that the guarantee depends on. "input" = VIOLATION with a concrete failing input, "no-input" = VIOLATION ... '
+         'no-failing-input-found, "MISSED" = the check stayed quiet.\n\n'
+         '| seed | change | needs | first run | now |\n|---|---|---|---|---|\n' + '\n'.join(rows) + '\n\n'
+         '### Harmless refactorings (false-alarm test)\n\n'
+         'Behaviour-preserving clean-ups of the anchored code by fresh sub-agents (444 tests pass, demonstration prints identical output on '
+         'both trees; `harmless/<id>-<k>/`, run with `tools/harmcheck.py`). A check should stay quiet; "ALARM (no-failing-input-found)" is the '
+         'sanctioned report of a tie that no longer checks, and each one was used to move facts from syntactic recognition to observed behaviour.\n\n'
+         '| case | refactoring | first run | now |\n|---|---|---|---|\n' + '\n'.join(hrows) + '\n<!-- /SEEDS -->')
 p = '/verif/DESIGN.md'
 s = open(p).read()
 if '<!-- SEEDS -->' in s:
@@ -22,4 +56,4 @@ if '<!-- SEEDS -->' in s:
 else:
     s = s.replace('## 1. What is verified and why tests cannot settle it', block + '\n\n\n## 1. What is verified and why tests cannot settle it')
 open(p, 'w').write(s)
-print(len(rows), 'seeds')
+print(len(rows), 'seeds', len(hrows), 'harmless')
